@@ -61,6 +61,48 @@ def chain_model(spec: dict):  # noqa: ANN201
     return m
 
 
+def _fwd(a, k1):  # noqa: ANN001, ANN202
+    return k1 * a
+
+
+def _bwd(b, k2):  # noqa: ANN001, ANN202
+    return k2 * b
+
+
+def cycle_model(spec: dict):  # noqa: ANN201
+    """Closed cycle A <-> B with a conserved pool: A(0) is computed from the parameter T by an
+    initial assignment, B(0) = 0.  The steady state depends on the pool."""
+    from mxlpy import InitialAssignment, Model
+
+    m = Model()
+    m.add_parameters({"k1": float(spec["k1"]), "k2": float(spec["k2"]), "T": float(spec["T"])})
+    m.add_variable("A", InitialAssignment(fn=_influx, args=["T"]))
+    m.add_variable("B", 0.0)
+    m.add_reaction("vf", _fwd, args=["A", "k1"], stoichiometry={"A": -1, "B": 1})
+    m.add_reaction("vb", _bwd, args=["B", "k2"], stoichiometry={"A": 1, "B": -1})
+    return m
+
+
+def cycle_coefficients(spec: dict, pool: float, col: str, *, normalized: bool) -> dict:
+    """Closed-form response coefficients of the cycle wrt k1, k2 or T (pool = total in force)."""
+    k1, k2 = float(spec["k1"]), float(spec["k2"])
+    s = k1 + k2
+    a, b, j = k2 * pool / s, k1 * pool / s, k1 * k2 * pool / s
+    if col == "T":
+        sc = {"A": 1.0, "B": 1.0, "vf": 1.0, "vb": 1.0}
+        val = float(spec["T"])
+    elif col == "k1":
+        sc = {"A": -k1 / s, "B": k2 / s, "vf": k2 / s, "vb": k2 / s}
+        val = k1
+    else:
+        sc = {"A": k1 / s, "B": -k2 / s, "vf": k1 / s, "vb": k1 / s}
+        val = k2
+    if normalized:
+        return sc
+    base = {"A": a, "B": b, "vf": j, "vb": j}
+    return {n: sc[n] * base[n] / val for n in sc}
+
+
 def model_state(m) -> dict:  # noqa: ANN001
     return {
         "content": canon({
@@ -152,6 +194,53 @@ class Exec:
                         self._viol("wrong_elasticity", ["wrong_elasticity", kind, "normalized" if normalized else "unscaled"], f"{kind}[{'v%d' % j}, {col}] = {got}, analytic {want}")
                         return
             self.counters[f"tables_checked:{kind}"] += 1
+            return
+        if kind == "cycle_response_coefficients":
+            cs = op["cycle"]
+            variables = {"A": float(op["variables"][0]), "B": float(op["variables"][1])} if op.get("variables") else None
+            pool = sum(variables.values()) if variables else float(cs["T"])
+            to_scan = op.get("to_scan") or ["k1", "k2", "T"]
+            if variables:
+                to_scan = [c for c in to_scan if c != "T"] or ["k1"]  # T no longer feeds the state once A is given
+            tables = {}
+            for sched in op["schedules"]:
+                m = cycle_model(cs)
+                before = model_state(m)
+                par = sched["mode"] == "pool"
+                mode = "mode:pool" if par else "mode:sequential"
+                if par:
+                    simpool.install(simpool.PoolPlan(workers=sched["W"], seed=sched["seed"]))
+                try:
+                    rc = mca.response_coefficients(m, to_scan=to_scan, variables=variables, normalized=normalized, parallel=par, max_workers=sched.get("W"), integrator=integrators.inner_type(self.case["integrator"]), disable_tqdm=True)
+                    cv, cf = rc.variables, rc.fluxes
+                except Exception as e:  # noqa: BLE001
+                    self._viol("routine_raised", ["routine_raised", kind, mode, type(e).__name__], f"{kind} ({mode}) raised {type(e).__name__}: {str(e)[:100]}")
+                    return
+                finally:
+                    if par:
+                        simpool.uninstall()
+                self.trace.add(kind, sched, digest_of(canon(cv)), digest_of(canon(cf)))
+                self.counters[f"schedule:{sched['mode']}"] += 1
+                if not self.untouched(m, before, kind, mode, "variables_given" if variables else "default_variables"):
+                    return
+                tables[mode + str(sched.get("W"))] = (cv, cf)
+                tol = 1e-5 if self.case["integrator"] == "exact" else 3e-2
+                for col in to_scan:
+                    want = cycle_coefficients(cs, pool, col, normalized=normalized)
+                    for name, tab in (("A", cv), ("B", cv), ("vf", cf), ("vb", cf)):
+                        got = float(tab.loc[name, col])
+                        noise = 0.0 if (normalized or self.case["integrator"] == "exact") else 2e-2 * pool / float(cs[col])
+                        if not (abs(got - want[name]) <= tol * (1 + abs(want[name])) + noise):
+                            self._viol("wrong_response_coefficient", ["wrong_response_coefficient", kind, "conserved_pool", "normalized" if normalized else "unscaled", "variables_given" if variables else "default_variables", mode], f"cycle C[{name}, {col}] = {got}, closed form {want[name]} (pool {pool}, {mode})")
+                            return
+                self.counters[f"tables_checked:{kind}"] += 1
+            keys = list(tables)
+            for a, b in zip(keys, keys[1:], strict=False):
+                for idx, nm in ((0, "variables"), (1, "fluxes")):
+                    d = diff_values(tables[a][idx], tables[b][idx], rtol=1e-9, atol=1e-12)
+                    if d is not None:
+                        self._viol("schedule_dependent", ["schedule_dependent", kind, nm], f"{nm} coefficients differ between {a} and {b} ({d})")
+                        return
             return
         if kind in ("mc_variable_elasticities", "mc_parameter_elasticities"):
             import pandas as pd
@@ -294,8 +383,19 @@ def gen_case(rng: SimRng, tier: str) -> dict:  # noqa: ARG001
     }
     ops = []
     for _ in range(r.randint(1, 3)):
-        kind = rng.weighted("case", [("variable_elasticities", 1), ("parameter_elasticities", 1.5), ("response_coefficients", 3), ("mc_response_coefficients", 1), ("mc_variable_elasticities", 0.5), ("mc_parameter_elasticities", 0.5)])
+        kind = rng.weighted("case", [("variable_elasticities", 1), ("parameter_elasticities", 1.5), ("response_coefficients", 3), ("mc_response_coefficients", 1), ("mc_variable_elasticities", 0.5), ("mc_parameter_elasticities", 0.5), ("cycle_response_coefficients", 1.5)])
         op: dict = {"op": kind, "normalized": r.random() < 0.6}
+        if kind == "cycle_response_coefficients":
+            op["cycle"] = {"k1": r.choice([0.5, 1.0, 2.0]), "k2": r.choice([0.5, 1.0, 3.0]), "T": r.choice([2.0, 3.0, 6.0])}
+            if r.random() < 0.5:
+                op["variables"] = [r.choice([1.0, 2.0, 5.0]), r.choice([0.5, 1.0, 3.0])]
+            if r.random() < 0.4:
+                op["to_scan"] = sorted(r.sample(["k1", "k2", "T"], r.randint(1, 3)))
+            scheds = [{"mode": "seq"}] + [{"mode": "pool", "W": r.choice([1, 2, 4]), "seed": r.randrange(10**6)} for _ in range(r.randint(0, 1))]
+            r.shuffle(scheds)
+            op["schedules"] = scheds
+            ops.append(op)
+            continue
         if kind in ("mc_variable_elasticities", "mc_parameter_elasticities"):
             op["state"] = [r.choice([0.5, 1.5, 2.0, 4.0]) for _ in range(n)]
             op["mc_k0"] = [r.choice([0.5, 1.0, 2.0, 3.0]) for _ in range(r.randint(1, 3))]
